@@ -69,7 +69,8 @@ struct EvaluatedRule {
 /// in specified context and results are stored as [Values](Value) in this structure.
 struct EvaluatedDecisionTable {
   component_names: Vec<Name>,
-  output_values: Vec<Value>,
+  /// Output values in decreasing order of priority, one list for each output clause (empty when not defined).
+  output_values: Vec<Vec<Value>>,
   default_output_values: Vec<Option<Value>>,
   evaluated_rules: Vec<EvaluatedRule>,
 }
@@ -83,9 +84,10 @@ impl EvaluatedDecisionTable {
   fn get_matching_rules_prioritized(&self) -> Vec<&EvaluatedRule> {
     let mut rules: Vec<&EvaluatedRule> = self.evaluated_rules.iter().filter(|v| v.matches).collect();
     let compare = |x: &&EvaluatedRule, y: &&EvaluatedRule| {
-      for (v1, v2) in x.output_entry_values.iter().zip(y.output_entry_values.iter()) {
-        let index1 = self.output_values.iter().position(|o| o == v1);
-        let index2 = self.output_values.iter().position(|o| o == v2);
+      for ((v1, v2), output_values) in x.output_entry_values.iter().zip(y.output_entry_values.iter()).zip(self.output_values.iter()) {
+        // the priority of an output entry is its position among the output values of its own output clause
+        let index1 = output_values.iter().position(|o| o == v1);
+        let index2 = output_values.iter().position(|o| o == v2);
         match (index1, index2) {
           (Some(ix1), Some(ix2)) => {
             if ix1 < ix2 {
@@ -372,13 +374,16 @@ fn parse_decision_table(scope: &Scope, decision_table: &DecisionTable) -> Result
 
 ///
 fn evaluate_parsed_decision_table(scope: &Scope, parsed_decision_table: &ParsedDecisionTable) -> EvaluatedDecisionTable {
-  // evaluate only non-empty output values
+  // evaluate output values, one list for each output clause (empty when not defined)
   let mut output_values = vec![];
-  for evaluator in parsed_decision_table.output_values_evaluators.iter().flatten() {
-    let value = evaluator(scope);
-    if let Value::ExpressionList(values) = value {
-      output_values.append(&mut values.as_vec().to_owned());
+  for opt_evaluator in &parsed_decision_table.output_values_evaluators {
+    let mut clause_output_values = vec![];
+    if let Some(evaluator) = opt_evaluator {
+      if let Value::ExpressionList(values) = evaluator(scope) {
+        clause_output_values = values.as_vec().to_owned();
+      }
     }
+    output_values.push(clause_output_values);
   }
   // evaluate default output values, one for each output clause (when defined and single)
   let mut default_output_values = vec![];
